@@ -217,6 +217,7 @@ fn exec_op(bars: &BTreeMap<i64, ProgressBar>, mp: &Option<MultiProgress>, mine: 
         "println" => pb.unwrap().println("L"),
         "suspend" => pb.unwrap().suspend(|| {}),
         "enable" => pb.unwrap().enable_steady_tick(Duration::from_secs(3600)),
+        "enable_fast" => pb.unwrap().enable_steady_tick(Duration::from_nanos(1)),      // every iteration of the ticker takes longer than its interval
         "disable" => pb.unwrap().disable_steady_tick(),
         "is_finished" => { let _ = pb.unwrap().is_finished(); }
         "clone_drop" => { let c = pb.unwrap().clone(); drop(c); }
@@ -240,6 +241,11 @@ pub fn run_program(prog: &Value, out: &mut dyn Write) {
         rw_readers: BTreeMap::new(), notified: BTreeSet::new(), exited: BTreeSet::new(), labels: BTreeMap::new(), log: vec![], calls: BTreeMap::new() }), cv: Condvar::new(),
         atomics: prog["atomics"].as_bool().unwrap_or(false) });
 
+    // every panic in this process is counted (the ticker threads have no catch_unwind of ours around them)
+    use std::sync::atomic::{AtomicUsize, Ordering};
+    static PANICS: AtomicUsize = AtomicUsize::new(0);
+    PANICS.store(0, Ordering::SeqCst);
+    std::panic::set_hook(Box::new(|_| { PANICS.fetch_add(1, Ordering::SeqCst); }));
     // a frozen virtual clock: every Instant::now() of the library returns the same instant, so a rate limited target has its burst and nothing more
     if prog["setup"]["frozen_clock"].as_bool().unwrap_or(false) { crate::clock::enable(); }
     // ---- setup (not scheduled: the observer is installed afterwards, except that tickers must be registered) ----
@@ -406,6 +412,8 @@ pub fn run_program(prog: &Value, out: &mut dyn Write) {
             }
         }
     }
+    let call_panics = core.log.iter().filter(|s| s["k"] == "CallPanic").count();
+    rec.insert("tpanics".into(), json!(PANICS.load(Ordering::SeqCst).saturating_sub(call_panics)));
     rec.insert("flushes".into(), json!(cs.iter().filter(|c| c["k"] == "flush").count()));
     rec.insert("limcheck".into(), json!(prog["limcheck"].as_u64().unwrap_or(0)));
     rec.insert("frames".into(), json!(frames));
